@@ -66,6 +66,8 @@ func main() {
 		cmdRsweep(os.Args[2:])
 	case "transp":
 		cmdTransp(os.Args[2:])
+	case "blocks":
+		cmdBlocks(os.Args[2:])
 	case "play":
 		cmdPlay(os.Args[2:])
 	case "sweep16":
